@@ -366,6 +366,40 @@ fn gen_dir_files(rng: &mut Rng) -> Vec<(S, S)> {
 	out.into_iter().collect()
 }
 
+/// every numeral of a case term is an N: those below 128 are printed as the constants c0..c127 of C12/Run.v
+fn compact(term: &str) -> String {
+	let b = term.as_bytes();
+	let mut out = String::with_capacity(term.len() + term.len() / 3);
+	let mut i = 0;
+	while i < b.len() {
+		if b[i].is_ascii_digit() && (i == 0 || !(b[i - 1].is_ascii_alphanumeric() || b[i - 1] == b'_')) {
+			let mut j = i; while j < b.len() && b[j].is_ascii_digit() { j += 1; }
+			let lit = &term[i..j];
+			if lit.len() <= 3 && lit.parse::<u32>().map_or(false, |v| v < 128) && !(lit.len() > 1 && lit.starts_with('0')) { out.push('c'); }
+			out.push_str(lit); i = j;
+		} else { out.push(b[i] as char); i += 1; }
+	}
+	out
+}
+/// reorder the cases so that the shards (fixed number of cases each) get about the same number of bytes
+fn balance(r: &mut Report, shards: usize) {
+	let mut cs = std::mem::take(&mut r.cases);
+	cs.sort_by_key(|c| std::cmp::Reverse(c.len()));
+	let k = shards.max(1);
+	let mut buckets: Vec<Vec<String>> = vec![vec![]; k];
+	for (i, c) in cs.into_iter().enumerate() { let round = i / k; let pos = if round % 2 == 0 { i % k } else { k - 1 - i % k }; buckets[pos].push(c); }
+	let per = buckets.iter().map(|b| b.len()).max().unwrap_or(1).max(1);
+	// buckets differ by at most one case; pad nothing, just make the chunk size the larger one and fill in order
+	r.shard_size = per;
+	let mut flat = vec![];
+	let short: Vec<String> = vec![];
+	let _ = short;
+	// a bucket that is one short borrows nothing: chunks() cuts by count, so order buckets with `per` cases first
+	buckets.sort_by_key(|b| std::cmp::Reverse(b.len()));
+	for b in buckets { flat.extend(b); }
+	r.cases = flat;
+}
+
 // ---------- oracle ----------
 fn replay(what: &str, m: &MMappings, extra: &str) -> String {
 	let mut t = format!("property C12\nwhat: {what}\nmapping set (two namespaces; classes in insertion order):\n");
@@ -515,7 +549,7 @@ fn cases(r: &mut Report, rng: &mut Rng, stream: &str, m: &MMappings, sc: &mut Sc
 			}
 		}
 	}
-	r.case(stream, format!("CSet {gm} {} {} {} {} {}", gres(wall.as_ref().map(|t| gstr(t))), gopt(back.map(|b| gres(b.map(|b| g_classes(&b))))), glist(ones), gopt(dirw), gopt(dirback)));
+	r.case(stream, compact(&format!("CSet {gm} {} {} {} {} {}", gres(wall.as_ref().map(|t| gstr(t))), gopt(back.map(|b| gres(b.map(|b| g_classes(&b))))), glist(ones), gopt(dirw), gopt(dirback))));
 }
 
 pub fn run(ctx: &Ctx) -> anyhow::Result<Report> {
@@ -599,7 +633,7 @@ directory reads of generated file trees (non-mapping files, nested directories, 
 		let t = s(h);
 		r.eval(&gstr(&t), !t.is_empty());
 		match impl_read(&t) {
-			Ok(b) => { r.count(if b.is_some() { "hand_ok" } else { "hand_err" }); r.case("hand", format!("CRead {} {}", gstr(&t), gres(b.map(|b| g_classes(&b))))); }
+			Ok(b) => { r.count(if b.is_some() { "hand_ok" } else { "hand_err" }); r.case("hand", compact(&format!("CRead {} {}", gstr(&t), gres(b.map(|b| g_classes(&b)))))); }
 			Err(p) => r.violation(format!("read_into panicked: {p}"), format!("property C12\nread_into panicked: {p}\ntext:\n{h}\n")),
 		}
 	}
@@ -613,7 +647,7 @@ directory reads of generated file trees (non-mapping files, nested directories, 
 		if t.len() > 4000 { continue; }
 		r.eval(&gstr(&t), true);
 		match impl_read(&t) {
-			Ok(b) => { r.count(if b.is_some() { "mutated_ok" } else { "mutated_err" }); r.case("mutated", format!("CRead {} {}", gstr(&t), gres(b.map(|b| g_classes(&b))))); }
+			Ok(b) => { r.count(if b.is_some() { "mutated_ok" } else { "mutated_err" }); r.case("mutated", compact(&format!("CRead {} {}", gstr(&t), gres(b.map(|b| g_classes(&b)))))); }
 			Err(p) => r.violation(format!("read_into panicked: {p}"), format!("property C12\nread_into panicked: {p}\ntext (code points): {}\n", gstr(&t))),
 		}
 	}
@@ -622,11 +656,12 @@ directory reads of generated file trees (non-mapping files, nested directories, 
 		let fs = gen_dir_files(&mut rng);
 		r.eval(&g_files(&fs), !fs.is_empty());
 		match impl_read_dir(&fs, &mut sc) {
-			Ok(b) => { r.count(if b.is_some() { "dir_read_ok" } else { "dir_read_err" }); r.case("dir-read", format!("CReadDir {} {}", g_files(&fs), gres(b.map(|b| g_classes(&b))))); }
+			Ok(b) => { r.count(if b.is_some() { "dir_read_ok" } else { "dir_read_err" }); r.case("dir-read", compact(&format!("CReadDir {} {}", g_files(&fs), gres(b.map(|b| g_classes(&b)))))); }
 			Err(p) => r.violation(format!("enigma_dir::read panicked: {p}"), format!("property C12\nenigma_dir::read panicked: {p}\nfiles: {}\n", g_files(&fs))),
 		}
 	}
 	drop(sc);
+	balance(&mut r, if ctx.thorough { 48 } else { 16 });
 	Ok(r)
 }
 
